@@ -261,6 +261,9 @@ def idxnorm(ctx, col):
             except Unfoldable as ex:
                 col.unresolved("R-IDXNORM", q, d.loc(), f"key={key}, n=5", str(ex), stmt=f"row:{key}")
                 continue
+            if got == "?":
+                col.unresolved("R-IDXNORM", q, d.loc(), f"key={key}, n=5", "the integer arm does not end in a return the table can evaluate", stmt=f"row:{key}")
+                continue
             col.check(got == want, "R-IDXNORM", q, d.loc(), f"key={key}, n=5", f"-> {got}",
                       f"-> {got}, expected {want}", stmt=f"row:{key}")
     # LazyLoadingTrees / ChainTrees route through _get_idx
